@@ -68,6 +68,18 @@ def negate(test):
 class PhaseA(ast.NodeTransformer):
     def __init__(self):
         self.count = 0
+        self.docstrings = 0
+
+    def visit_FunctionDef(self, node):
+        # a docstring is an expression statement without effect (no module of the package reads __doc__): dropped from the analysed tree so that
+        # rules about "the first statement" / "the only statement" of a function do not depend on whether it is documented
+        self.generic_visit(node)
+        if len(node.body) > 1 and isinstance(node.body[0], ast.Expr) and isinstance(node.body[0].value, ast.Constant) and isinstance(node.body[0].value.value, str):
+            node.body = node.body[1:]
+            self.docstrings += 1
+        return node
+
+    visit_AsyncFunctionDef = visit_FunctionDef
 
     def visit_UnaryOp(self, node):
         self.generic_visit(node)
@@ -103,9 +115,32 @@ class PhaseA(ast.NodeTransformer):
         return node
 
 
+def _flatten_else_after_jump(node):
+    """if c: ...; <return/raise/continue/break>  else: REST   ->   if c: ...; <jump>   REST   (equivalent: the else branch is the fall-through)"""
+    n = 0
+    for fld in ('body', 'orelse', 'finalbody'):
+        b = getattr(node, fld, None)
+        if isinstance(b, list) and b and isinstance(b[0], ast.stmt):
+            out = []
+            work = list(b)
+            while work:
+                st = work.pop(0)
+                if isinstance(st, ast.If) and st.orelse and st.body and isinstance(st.body[-1], (ast.Return, ast.Raise, ast.Continue, ast.Break)):
+                    rest, st.orelse = st.orelse, []
+                    work = rest + work
+                    n += 1
+                out.append(st)
+            setattr(node, fld, out)
+    for ch in ast.iter_child_nodes(node):
+        if isinstance(ch, (ast.stmt, ast.ExceptHandler, ast.Module)) or isinstance(node, ast.Module):
+            n += _flatten_else_after_jump(ch)
+    return n
+
+
 def phase_a(tree):
     t = PhaseA()
     tree = t.visit(tree)
+    t.count += _flatten_else_after_jump(tree)
     ast.fix_missing_locations(tree)
     return tree, t.count
 
@@ -196,6 +231,16 @@ class _Guided:
                     out.append(ast.copy_location(ast.Return(value=val), st))
                     i += 2
                     continue
+            # t = E; if t: ...   ->  if E: ...      (t a temporary with this single use)
+            if isinstance(st, ast.Assign) and len(st.targets) == 1 and isinstance(st.targets[0], ast.Name) and i + 1 < len(stmts) and isinstance(stmts[i + 1], ast.If) \
+                    and isinstance(stmts[i + 1].test, ast.Name) and stmts[i + 1].test.id == st.targets[0].id and self.loads.get(st.targets[0].id) == 1 and self.stores.get(st.targets[0].id) == 1:
+                val = self.expr(st.value)
+                if self.surplus('tests', st.targets[0].id) and (self.deficit('tests', _u(val)) or self.deficit('tests', _u(negate(val)))):
+                    self.moved('tests', st.targets[0].id, _u(val))
+                    nxt = stmts[i + 1]
+                    stmts[i + 1] = ast.copy_location(ast.If(test=val, body=nxt.body, orelse=nxt.orelse), nxt)
+                    i += 1
+                    continue
             st = self.stmt(st, in_loop)
             # trailing `if not c: rest` in a loop body  ->  `if c: continue` + rest
             if in_loop and i == len(stmts) - 1 and isinstance(st, ast.If) and not st.orelse and self.surplus('tests', _u(st.test)):
@@ -283,6 +328,7 @@ class _Guided:
                     scan(h.body)
         scan(func.body)
         self.return_temps = {n for n, k in pairs.items() if loads.get(n, 0) == k and stores.get(n, 0) == k}
+        self.loads, self.stores = loads, stores
         func.body = self.block(func.body, False)
         return self.count
 
